@@ -51,6 +51,8 @@ pub struct Disk {
     pub reads: u64,
     /// extra completion delay bound (draws in 0..=max_delay)
     pub max_delay: usize,
+    /// operations issued and not yet completed
+    pub inflight: i64,
 }
 
 thread_local! {
@@ -149,6 +151,35 @@ impl Device for SimDevice {
     }
 }
 
+struct Inflight;
+impl Inflight {
+    fn new() -> Self {
+        DISK.with(|d| d.borrow_mut().inflight += 1);
+        Inflight
+    }
+}
+impl Drop for Inflight {
+    fn drop(&mut self) {
+        DISK.with(|d| d.borrow_mut().inflight -= 1);
+    }
+}
+
+/// Yields until no device operation has been in flight for a while (all background work has drained).
+pub async fn quiesce() {
+    let mut calm = 0;
+    for _ in 0..20_000 {
+        shuttle::future::yield_now().await;
+        if DISK.with(|d| d.borrow().inflight) == 0 {
+            calm += 1;
+            if calm >= 40 {
+                return;
+            }
+        } else {
+            calm = 0;
+        }
+    }
+}
+
 #[derive(Debug)]
 pub struct SimIoEngine;
 
@@ -169,6 +200,7 @@ impl IoEngine for SimIoEngine {
         let part = part_of(partition);
         async move {
             hist::ev("dev_read_issue", part as u64, offset, buf.len() as u64);
+            let _g = Inflight::new();
             delay().await;
             let len = buf.len();
             let off = offset as usize;
@@ -236,6 +268,7 @@ impl IoEngine for SimIoEngine {
                 d.writes.push(WriteRec { idx, part, offset: off, data: Arc::new(buf[..].to_vec()), issue_seq, apply_seq: None, generation });
                 idx
             });
+            let _g = Inflight::new();
             delay().await;
             let apply_seq = hist::ev("dev_write_apply", part as u64, offset, idx as u64);
             if off == 0 && len == PAGE && buf.iter().all(|b| *b == 0) {
